@@ -455,11 +455,17 @@ func passEdgesDepth(fn *ssa.Function, depth int, guards ...Guard) (map[Edge]bool
 		if !ok {
 			continue
 		}
+		reach := ReachBlocks(fn, nil, edges)
 		for _, T := range []bool{true, false} {
 			all, some := true, false
 			matched := make([]int, len(guards))
 			for i, e := range phi.Edges {
 				pred := phi.Block().Preds[i]
+				if !reach[pred] {
+					// this way of computing the phi is only reachable through a pass edge already
+					some = true
+					continue
+				}
 				if k, isK := e.(*ssa.Const); isK && k.Value != nil && k.Value.Kind() == constant.Bool {
 					if constant.BoolVal(k.Value) != T {
 						continue
